@@ -87,7 +87,8 @@ def optsOf (s : String) : Option Model.Serde.ProofOptions :=
 def traceOf (s : String) : Option (List (List Nat)) :=
   (s.splitOn "/").mapM fun c => (c.splitOn ",").mapM Model.VerifierChecks.parseNat
 
-/-- `refp <field> <hasher> <opts> <seed> <desc> <trace>`: the reference prover's proof bytes -/
+/-- `refp <field> <hasher> <opts> <seed> <desc> <trace>`: the reference prover's proof bytes, and the reference
+    verifier's verdict on them -/
 def handleRefp (f h opts desc trace : String) : String :=
   match Model.RefVerifier.instOf f h with
   | none => "-"
@@ -98,7 +99,10 @@ def handleRefp (f h opts desc trace : String) : String :=
       else if t.length ≠ d.air.width ∨ t.any (fun c => c.length ≠ d.air.n) ∨ t.any (fun c => c.any (· ≥ J.I.M)) then "bad-op"
       else
         match Model.RefProver.refProve J d t o with
-        | .ok bs => hexOf bs
+        | .ok bs =>
+          -- the executable pair end to end: the reference verifier on the reference prover's bytes
+          let v := Model.RefVerifier.refVerify J d (Model.RefProver.refPubInputs J d t) (.optionSet [o]) bs
+          hexOf bs ++ " v=" ++ (if v = .ok then "ok" else "rejected")
         | .error _ => "panic"
     | _, _, _ => "bad-op"
 
